@@ -226,8 +226,13 @@ pub fn compare_stream(data: &[u8], st: Option<&mut Stats>) -> Result<(), (String
     if let Some(p) = &real.params_problem {
         return Err(("c02:params-iterator".into(), p.clone()));
     }
-    if real.ev != r.ev {
-        return Err(("c02:events".into(), first_diff(&real.ev, &r.ev)));
+    if !vt::events_agree(&real.ev, &r.ev, &r.osc16) {
+        // a byte that cuts a multi-byte character short: the statement leaves open whether it is swallowed with the
+        // character or handled on its own afterwards - both decoders are accepted (DESIGN 8.1)
+        let (alt, alt16) = vt::parse_osc16(data, Policy::Reprocess);
+        if std::str::from_utf8(data).is_ok() || !vt::events_agree(&real.ev, &alt, &alt16) {
+            return Err(("c02:events".into(), first_diff(&real.ev, &r.ev)));
+        }
     }
     // the 7-bit-only accumulator sees the same machine on 7-bit input
     if data.iter().all(|b| *b < 0x80) {
@@ -236,7 +241,7 @@ pub fn compare_stream(data: &[u8], st: Option<&mut Stats>) -> Result<(), (String
         for &b in data {
             p.advance(&mut rec, b);
         }
-        if rec.ev != r.ev {
+        if !vt::events_agree(&rec.ev, &r.ev, &r.osc16) {
             return Err(("c02:ascii-accumulator".into(), format!("Parser<AsciiParser>: {}", first_diff(&rec.ev, &r.ev))));
         }
     }
@@ -330,9 +335,12 @@ pub fn compare_replay(prefix: &[u8], cancel: u8, stream: &[u8], st: Option<&mut 
     if rec.ev[mark..] != fresh.ev[..] {
         return Err(("c02:cancel-replay".into(), format!("after prefix + {cancel:#04x}: {}", first_diff(&rec.ev[mark..], &fresh.ev))));
     }
-    let want = vt::parse(stream, Policy::Consume);
-    if fresh.ev != want {
-        return Err(("c02:events".into(), first_diff(&fresh.ev, &want)));
+    let (want, osc16) = vt::parse_osc16(stream, Policy::Consume);
+    if !vt::events_agree(&fresh.ev, &want, &osc16) {
+        let (alt, alt16) = vt::parse_osc16(stream, Policy::Reprocess);
+        if std::str::from_utf8(stream).is_ok() || !vt::events_agree(&fresh.ev, &alt, &alt16) {
+            return Err(("c02:events".into(), first_diff(&fresh.ev, &want)));
+        }
     }
     Ok(())
 }
